@@ -47,6 +47,15 @@ impl<V> HashTable<ZobristHash, V> {
     }
 }
 
+#[cfg(inkayaku_verif)]
+impl HashTable<ZobristHash, u64> {
+    pub fn verif_put(&mut self, key: ZobristHash, value: u64) { self.put(key, value) }
+    pub fn verif_get(&self, key: ZobristHash) -> Option<u64> { self.get(key).copied() }
+    pub fn verif_clear(&mut self) { self.clear() }
+    pub fn verif_len(&self) -> usize { self.len() }
+    pub fn verif_load_factor(&self) -> f32 { self.load_factor() }
+}
+
 // #[cfg(test)]
 // mod test {
 //     use crate::inkayaku::table::HashTable;
